@@ -186,7 +186,7 @@ def _stream_worker(a):
     packed = []
     for tag, data, r, diff in results:
         packed.append({"tag": tag, "clean": r.clean(), "crash": r.crash_events(), "stderr": r.stderr[-2500:] if not r.clean() else "", "diff": diff,
-                       "data": data if (not r.clean() or diff) else None, "len": len(data), "conf": conf if (not r.clean() or diff) else None,
+                       "data": data if (not r.clean() or diff) else None, "head": data[:600].decode("latin-1"), "len": len(data), "conf": conf if (not r.clean() or diff) else None,
                        "hash": vcommon.h([tag, seed, len(data), data[:200].decode("latin-1")])})
     return kind, packed
 
@@ -233,9 +233,13 @@ def run(chk, tier, scale=1.0):
     add("junk", int((50 if q else 1000) * scale), 4 if q else 5)
     res = vcommon.pmap(_stream_worker, jobs, chunksize=1)
     seen_crash = {}
+    sampled = set()
     for kind, packed in res:
         for p in packed:
             chk.add_case(p["hash"], p["len"] > 0)
+            if kind not in sampled and 0 < p["len"] < 20000:
+                sampled.add(kind)
+                chk.sample({"kind": kind, "variant": p["tag"], "bytes": p["len"], "input_head": p["head"]}, limit=4)
             chk.count("runs_" + kind)
             chk.count("input_bytes", p["len"])
             if p["clean"]:
